@@ -18,6 +18,7 @@ import (
 	"github.com/evolbioinfo/goalign/io/partition"
 	"github.com/evolbioinfo/goalign/io/phylip"
 
+	"verif/lib/conc"
 	"verif/lib/fmtio"
 	"verif/lib/gen"
 	"verif/lib/h"
@@ -684,11 +685,13 @@ func main() {
 	mon.Floor("parse:fasta-unalign", 100)
 	mon.Floor("parse:phylip-stream", 100)
 	mon.Floor("truncation-points", 5000)
+	mon.Floor("concurrent:calls", 500)
 	mon.Main("C03", []mon.Sub{
 		{Name: "witness", Quick: len(witnesses), Thorough: len(witnesses), Run: runWitness},
 		{Name: "mutants", Quick: 400000, Thorough: 8000000, Run: runMutants},
 		{Name: "truncations", Quick: 2000, Thorough: 40000, Run: runTruncations},
 		{Name: "single-byte", Quick: 1500, Thorough: 30000, Run: runSingleByte},
 		{Name: "partition", Quick: 30000, Thorough: 600000, Run: runPartition},
+		{Name: "concurrent", Quick: 64, Thorough: 1200, Race: true, Run: func(c *mon.Case) { conc.Run(c, "parse", "formats") }},
 	})
 }
